@@ -188,9 +188,10 @@ class KickMapApply(Contract):
 
     def requires(self, cx):
         it, ip, kd, pd = KM_fields(cx)
-        k = z3.Int('k!tab')
         # every table entry refers to a grid line (established by updateSM, see UpdateSM.ensures)
-        tab = z3.ForAll([k], Implies(And(k >= 0, k < pd * cx.f(PS_NB) * ip), KM_table(cx, k)))
+        tab = ElemInv('this._hinfo', 'index', 'int',
+                      lambda c, k, v: Implies(And(k >= 0, k < c.f('this._meshsize_pd') * c.f(PS_NB) * c.f('this._ip', 'u8')),
+                                              v < c.f('this._meshsize_kd')))
         return [('valid', KM_valid(cx)), ('table', tab)]
 
     def assigns(self, cx):
@@ -300,3 +301,828 @@ class KickMapApply(Contract):
             d[f'y#{k}'].split = self._split_y
             d[f'j#{k}'] = LoopSpec(unroll=4)
         return d
+
+
+# =========================================================================== constructors
+def alias_axes(cx, this='this'):
+    """SourceMap::_axis[k] are the rulers of the input phase space (established by the SourceMap ctor)"""
+    st = cx.st
+    t = cx.this or this
+    for k in (0, 1):
+        st.scal[f'{t}._axis[{k}]'] = ObjRef(f'{t}._in._axis[{k}]', 'std::shared_ptr<vfps::Ruler<float>>')
+
+
+class SourceMapCtor(Contract):
+    name = 'vfps::SourceMap::SourceMap'
+    tu = 'src/SM/SourceMap.cpp'
+    nparams = 8
+    params = ['in', 'out', 'xsize', 'ysize', 'memsize', 'interpoints', 'intertype', 'oclh']
+    tags = {'C17', 'C08'}
+
+    def init__axis(self, ex, st, e):
+        # std::array{{in->getAxis(0), in->getAxis(1)}}: checked syntactically — two getAxis calls on `in` with 0 and 1
+        import json
+        txt = json.dumps(e)
+        if txt.count('"name": "getAxis"') != 2:
+            raise ExtractionError('SourceMap ctor: _axis initialiser is no longer {in->getAxis(0), in->getAxis(1)}')
+        a = ex.args0['in']
+        for k in (0, 1):
+            st.scal[f'this._axis[{k}]'] = ObjRef(f'{a.name}._axis[{k}]', 'std::shared_ptr<vfps::Ruler<float>>')
+
+    def assigns(self, cx):
+        return [('s', 'this.*'), ('r', 'this._hinfo')]
+
+    def effect(self, cx):
+        st, t = cx.st, cx.this
+        st.scal[t + '._in'] = cx.arg('in')
+        st.scal[t + '._out'] = cx.arg('out')
+        a = cx.arg('in')
+        for k in (0, 1):
+            st.scal[f'{t}._axis[{k}]'] = ObjRef(f'{a.name}._axis[{k}]', 'std::shared_ptr<vfps::Ruler<float>>')
+        st.havoc_region(t + '._hinfo')
+        st.length[t + '._hinfo'] = z3.Int(f'len({t}._hinfo)')
+
+    def ensures(self, cx):
+        ms = cx.a('memsize')
+        out = [('ip', {'C17'}, cx.f('this._ip', 'u8') == cx.a('interpoints')),
+               ('it', {'C17'}, cx.f('this._it', 'u8') == cx.a('intertype')),
+               ('xsize', {'C17'}, cx.f('this._xsize') == cx.a('xsize')),
+               ('ysize', {'C17'}, cx.f('this._ysize') == cx.a('ysize')),
+               ('table_len', {'C17'}, cx.len('this._hinfo') == If(ms > 16, ms, I(16)))]
+        return out
+
+
+class SourceMapCtor7(SourceMapCtor):
+    """delegating overload: memsize = xsize*ysize*interpoints"""
+    nparams = 7
+    params = ['in', 'out', 'xsize', 'ysize', 'interpoints', 'intertype', 'oclh']
+    calls = {'ctor:vfps::SourceMap/8': Use(SourceMapCtor())}
+
+    def requires(self, cx):
+        return [('fits', And(cx.a('xsize') < 2 ** 32, cx.a('ysize') < 2 ** 32, cx.a('xsize') * cx.a('ysize') * cx.a('interpoints') < 2 ** 64))]
+
+    def ensures(self, cx):
+        ms = cx.a('xsize') * cx.a('ysize') * cx.a('interpoints')
+        return [('ip', {'C17'}, cx.f('this._ip', 'u8') == cx.a('interpoints')),
+                ('it', {'C17'}, cx.f('this._it', 'u8') == cx.a('intertype')),
+                ('xsize', {'C17'}, cx.f('this._xsize') == cx.a('xsize')),
+                ('ysize', {'C17'}, cx.f('this._ysize') == cx.a('ysize')),
+                ('table_len', {'C17'}, cx.len('this._hinfo') == If(ms > 16, ms, I(16)))]
+
+
+class KickMapCtor(Contract):
+    name = 'vfps::KickMap::KickMap'
+    tu = 'src/SM/KickMap.cpp'
+    params = ['in', 'out', 'it', 'interpol_clamp', 'kd', 'oclh']
+    tags = {'C17', 'C08'}
+    ghosts = {'k': 'int'}
+    calls = {'ctor:vfps::SourceMap': Use(SourceMapCtor()),
+             'vfps::SourceMap::notClampedMessage': lambda ex, n, st, objn, argn: VoidV()}
+
+    def requires(self, cx):
+        nx, ny, nb = ps_globals(cx)
+        it = cx.a('it')
+        return [('static', PS_static(cx)), ('it', And(it >= 1, it <= 4)), ('kd', Or(cx.a('kd') == 0, cx.a('kd') == 1)),
+                ('tablefits', nx * nb * 4 < 2 ** 32)]
+
+    def assigns(self, cx):
+        return [('s', 'this.*'), ('r', 'this._hinfo'), ('r', 'this._offset'), ('len', 'this._offset')]
+
+    def effect(self, cx):
+        SourceMapCtor.effect(self, cx)
+        t = cx.this
+        cx.st.havoc_region(t + '._offset')
+        cx.st.length[t + '._offset'] = z3.Int(f'len({t}._offset)')
+        for f_ in ('_ip', '_it', '_meshsize_kd', '_meshsize_pd', '_lastbunch', '_xsize', '_ysize', '_kickdirection'):
+            cx.st.scal.pop(f'{t}.{f_}', None)
+
+    def ensures(self, cx):
+        nx, ny, nb = ps_globals(cx)
+        k = cx.g('k')
+        isx = cx.a('kd') == 0
+        return [('valid', {'C17', 'C08'}, KM_valid(cx)),
+                ('it', {'C17'}, cx.f('this._it', 'u8') == cx.a('it')),
+                ('dir', {'C08'}, cx.f('this._kickdirection', 'u8') == cx.a('kd')),
+                ('lastbunch', {'C08'}, cx.f('this._lastbunch') == nb - 1),
+                ('xysize', {'C17'}, And(cx.f('this._xsize') == If(isx, I(1), nx), cx.f('this._ysize') == If(isx, ny, I(1)))),
+                ('offset_zero', {'C08'}, Implies(And(k >= 0, k < nx * nb), cx.sel('this._offset', k) == 0))]
+
+
+# =========================================================================== Ruler view
+def ruler_fields(cx, obj):
+    return dict(mn=cx.rf(obj + '._min'), mx=cx.rf(obj + '._max'), delta=cx.rf(obj + '._delta'),
+                zb=cx.rf(obj + '._zerobin'), steps=cx.f(obj + '._steps'))
+
+
+def Ruler_valid(cx, obj, steps):
+    """what Ruler's constructor establishes (U12)"""
+    r = ruler_fields(cx, obj)
+    return And(r['steps'] == steps, r['mx'] > r['mn'], r['delta'] > 0,
+               r['delta'] * z3.ToReal(steps - 1) == r['mx'] - r['mn'],
+               cx.len(obj + '._data') == steps)
+
+
+def ruler_at(cx, obj, k):
+    """position of grid line k: the Ruler constructor's contract (specs/ps.py RulerCtor) proves
+    _data[k] == _min + k*_delta for every k < steps"""
+    return cx.sel(obj + '._data', k)
+
+
+def ruler_at_fact(cx, obj, k):
+    r = ruler_fields(cx, obj)
+    return Implies(And(k >= 0, k < r['steps']), cx.sel(obj + '._data', k) == r['mn'] + z3.ToReal(k) * r['delta'])
+
+
+def SM_axes(cx):
+    """SourceMap::_axis[k] alias the rulers of _in, both valid for the static grid size"""
+    alias_axes(cx)
+    nx, ny, nb = ps_globals(cx)
+    t = cx.this or 'this'
+    return And(Ruler_valid(cx, t + '._in._axis[0]', nx), Ruler_valid(cx, t + '._in._axis[1]', ny))
+
+
+TAN = models.uf('tan')
+SIN = models.uf('sin')
+
+
+def rf_offset_spec(cx, x, phase, ampl):
+    """RF law from the statement of C03 (linear: tan(angle) * distance from the zero-position bin)"""
+    t = cx.this or 'this'
+    ax0, ax1 = t + '._in._axis[0]', t + '._in._axis[1]'
+    lin = cx.f('this._linear', 'bool') != 0
+    angle, sp, bl = cx.rf('this._angle'), cx.rf('this._syncphase'), cx.rf('this._bl2phase')
+    zb = cx.rf(ax0 + '._zerobin')
+    d0 = cx.rf(ax0 + '._delta')
+    linv = ampl * (TAN(angle) * (zb - z3.ToReal(x)) + TAN(angle) * (sp - phase) / bl / d0)
+    q = cx.sel(ax0 + '._data', x)      # position of grid line x (Ruler contract: min + x*delta)
+    sinv = cx.rf('this._revolutionpart') * (-ampl * cx.rf('this._V_RF') * SIN(q * bl + phase) + cx.rf('this._V0')) \
+        / cx.rf(ax1 + '._delta') / cx.rf(ax1 + '._scale[ElectronVolt]')
+    return If(lin, linv, sinv)
+
+
+class RFCalcKick(Contract):
+    name = 'vfps::RFKickMap::_calcKick'
+    tu = 'src/SM/RFKickMap.cpp'
+    params = ['phase', 'ampl']
+    tags = {'C03', 'C05', 'C08', 'C19'}
+    ghosts = {'x': 'int', 'e': 'int', 'k': 'int'}
+
+    def setup(self, cx):
+        cx.st.assume(SM_axes(cx))
+
+    def requires(self, cx):
+        nx, ny, nb = ps_globals(cx)
+        return [('valid', KM_valid(cx)), ('xsize', cx.f('this._xsize') == nx), ('ydir', cx.f('this._kickdirection', 'u8') == 1)]
+
+    def assigns(self, cx):
+        t = cx.this or 'this'
+        it, ip, kd, pd = KM_fields(cx)
+        return [('r', t + '._offset', I(0), cx.f(PS_NX)), ('r', t + '._hinfo', I(0), cx.len('this._offset') * ip)]
+
+    def ensures(self, cx):
+        nx, ny, nb = ps_globals(cx)
+        x, e, k = cx.g('x'), cx.g('e'), cx.g('k')
+        offs = cx.arr('this._offset')
+        inr = And(x >= 0, x < nx)
+        return [('law', {'C03', 'C05', 'C08', 'C19'}, Implies(inr, z3.Select(offs, x) == rf_offset_spec(cx, x, cx.a('phase'), cx.a('ampl')))),
+                ('others_unchanged', {'C08'}, Implies(k >= nx, z3.Select(offs, k) == z3.Select(cx.old.arr('this._offset'), k))),
+                ('table', {'C03', 'C08'}, Implies(And(inr, e >= 0, e < cx.f('this._it', 'u8')), row_spec(cx, x, e, offs)))]
+
+    def _inv(self, cx):
+        nx, ny, nb = ps_globals(cx)
+        x, gx, k = cx.v('x'), cx.g('x'), cx.g('k')
+        offs = cx.arr('this._offset')
+        return [('range', And(x >= 0, x <= nx)),
+                ('law', Implies(And(gx >= 0, gx < x), z3.Select(offs, gx) == rf_offset_spec(cx, gx, cx.a('phase'), cx.a('ampl')))),
+                ('others_unchanged', Implies(k >= nx, z3.Select(offs, k) == z3.Select(cx.old.arr('this._offset'), k))),
+                ('hinfo_unchanged', And(cx.arr('this._hinfo', 'index', 'int') == cx.old.arr('this._hinfo', 'index', 'int'),
+                                        cx.arr('this._hinfo', 'weight') == cx.old.arr('this._hinfo', 'weight')))]
+
+    @property
+    def loops(self):
+        d = {'x#0': LoopSpec(inv=self._inv), 'x#1': LoopSpec(inv=self._inv)}
+        for l in d.values():
+            l.split = split_ghost('x', 'x')
+        return d
+
+    calls = {'vfps::KickMap::updateSM': Use(UpdateSM(), inst=lambda cx: [{'g': cx.ghost_of('x'), 'e': cx.ghost_of('e')}])}
+
+
+class RFKickMapLinearCtor(Contract):
+    name = 'vfps::RFKickMap::RFKickMap'
+    tu = 'src/SM/RFKickMap.cpp'
+    nparams = 7
+    params = ['in', 'out', 'angle', 'f_RF', 'it', 'interpol_clamp', 'oclh']
+    tags = {'C03', 'C08', 'C19', 'C17'}
+    ghosts = {'x': 'int', 'e': 'int'}
+    linear = True
+
+    def setup(self, cx):
+        nx, ny, nb = ps_globals(cx)
+        a = cx.arg('in').name
+        cx.st.assume(And(Ruler_valid(cx, a + '._axis[0]', nx), Ruler_valid(cx, a + '._axis[1]', ny)))
+
+    def requires(self, cx):
+        nx, ny, nb = ps_globals(cx)
+        it = cx.a('it')
+        a = cx.arg('in').name
+        return [('static', PS_static(cx)), ('it', And(it >= 1, it <= 4)), ('tablefits', nx * nb * 4 < 2 ** 32),
+                ('rf_positive', And(cx.a('f_RF') > 0, cx.rf(a + '._axis[0]._scale[Meter]') > 0, models.uf_const('PI') > 3))]
+
+    def assigns(self, cx):
+        return [('s', 'this.*'), ('r', 'this._hinfo'), ('r', 'this._offset'), ('len', 'this._offset')]
+
+    def effect(self, cx):
+        KickMapCtor.effect(self, cx)
+
+    def law(self, cx, x):
+        return rf_offset_spec(cx, x, cx.rf('this._syncphase'), z3.RealVal(1))
+
+    def ensures(self, cx):
+        nx, ny, nb = ps_globals(cx)
+        x, e = cx.g('x'), cx.g('e')
+        inr = And(x >= 0, x < nx)
+        offs = cx.arr('this._offset')
+        a = cx.arg('in').name
+        zb = cx.rf(a + '._axis[0]._zerobin')
+        out = [('valid', {'C17', 'C08'}, KM_valid(cx)),
+               ('shared_map', {'C08'}, cx.f('this._lastbunch') == 0),
+               ('ydir', {'C03', 'C08'}, cx.f('this._kickdirection', 'u8') == 1),
+               ('model', {'C19', 'C03'}, (cx.f('this._linear', 'bool') != 0) == self.linear),
+               ('law', {'C03', 'C08', 'C19'}, Implies(inr, z3.Select(offs, x) == self.law(cx, x))),
+               ('table', {'C03', 'C08'}, Implies(And(inr, e >= 0, e < cx.f('this._it', 'u8')), row_spec(cx, x, e, offs)))]
+        if self.linear:
+            out += [('angle', {'C03', 'C19'}, cx.rf('this._angle') == cx.a('angle')),
+                    ('linear_law', {'C03'}, Implies(inr, z3.Select(offs, x) == TAN(cx.a('angle')) * (zb - z3.ToReal(x))))]
+        else:
+            out += [('params', {'C19', 'C03'}, And(cx.rf('this._revolutionpart') == cx.a('revolutionpart'), cx.rf('this._V_RF') == cx.a('V_RF'),
+                                                  cx.rf('this._V0') == cx.a('V0'), cx.rf('this._syncphase') == models.uf('asin')(cx.a('V0') / cx.a('V_RF'))))]
+        return out
+
+    @property
+    def calls(self):
+        return {'ctor:vfps::KickMap': Use(KickMapCtor()),
+                'vfps::RFKickMap::_calcKick': Use(RFCalcKick(), inst=lambda cx: [{'x': cx.ghost_of('x'), 'e': cx.ghost_of('e'), 'k': cx.ghost_of('x')}])}
+
+
+class RFKickMapSinCtor(RFKickMapLinearCtor):
+    nparams = 9
+    params = ['in', 'out', 'revolutionpart', 'V_RF', 'f_RF', 'V0', 'it', 'interpol_clamp', 'oclh']
+    linear = False
+
+
+# =========================================================================== U5 DriftMap
+class DriftMapCtor(Contract):
+    name = 'vfps::DriftMap::DriftMap'
+    tu = 'src/SM/DriftMap.cpp'
+    params = ['in', 'out', 'slip', 'E0', 'it', 'interpol_clamp', 'oclh']
+    tags = {'C03', 'C08', 'C01', 'C17'}
+    ghosts = {'y': 'int', 'e': 'int'}
+
+    def setup(self, cx):
+        nx, ny, nb = ps_globals(cx)
+        a = cx.arg('in').name
+        cx.st.assume(And(Ruler_valid(cx, a + '._axis[0]', nx), Ruler_valid(cx, a + '._axis[1]', ny)))
+
+    def requires(self, cx):
+        nx, ny, nb = ps_globals(cx)
+        it = cx.a('it')
+        return [('static', PS_static(cx)), ('it', And(it >= 1, it <= 4)), ('tablefits', nx * nb * 4 < 2 ** 32),
+                ('slip3', cx.len(cx.arg('slip').name) == 3)]
+
+    def assigns(self, cx):
+        return [('s', 'this.*'), ('r', 'this._hinfo'), ('r', 'this._offset'), ('len', 'this._offset')]
+
+    def effect(self, cx):
+        KickMapCtor.effect(self, cx)
+
+    def law(self, cx, y):
+        """drift: sum_i slip_i * p(y) * (p(y)*scale_eV/E0)^i / delta_q  (statement of C03 + momentum compaction)"""
+        a = cx.arg('in').name
+        p = cx.sel(a + '._axis[1]._data', y)
+        r = p * cx.rf(a + '._axis[1]._scale[ElectronVolt]') / cx.a('E0')
+        sl = cx.arr(cx.arg('slip').name)
+        s0, s1, s2 = [z3.Select(sl, i) for i in range(3)]
+        return (s0 * p + s1 * p * r + s2 * p * (r * r)) / cx.rf(a + '._axis[0]._delta')
+
+    def ensures(self, cx):
+        nx, ny, nb = ps_globals(cx)
+        y, e = cx.g('y'), cx.g('e')
+        inr = And(y >= 0, y < ny)
+        offs = cx.arr('this._offset')
+        return [('valid', {'C17', 'C08'}, KM_valid(cx)),
+                ('xdir', {'C03', 'C08'}, cx.f('this._kickdirection', 'u8') == 0),
+                ('law', {'C03', 'C08', 'C01'}, Implies(inr, z3.Select(offs, y) == self.law(cx, y))),
+                ('table', {'C03', 'C08', 'C01'}, Implies(And(inr, e >= 0, e < cx.f('this._it', 'u8')), row_spec(cx, y, e, offs)))]
+
+    def _inv(self, cx):
+        nx, ny, nb = ps_globals(cx)
+        y, gy = cx.v('y'), cx.g('y')
+        return [('range', And(y >= 0, y <= ny)),
+                ('valid', KM_valid(cx)),
+                ('ysize', cx.f('this._ysize') == ny),
+                ('law', Implies(And(gy >= 0, gy < y), z3.Select(cx.arr('this._offset'), gy) == self.law(cx, gy)))]
+
+    @property
+    def loops(self):
+        l = LoopSpec(inv=self._inv)
+        l.split = split_ghost('y', 'y')
+        return {'y#0': l, 'i#0': LoopSpec(unroll=3)}
+
+    @property
+    def calls(self):
+        return {'ctor:vfps::KickMap': Use(KickMapCtor()),
+                'vfps::KickMap::updateSM': Use(UpdateSM(), inst=lambda cx: [{'g': cx.ghost_of('y'), 'e': cx.ghost_of('e')}])}
+
+
+# =========================================================================== U11 Identity
+class IdentityApply(Contract):
+    name = 'vfps::Identity::apply'
+    tu = 'src/SM/Identity.cpp'
+    params = []
+    tags = {'C01', 'C08', 'C12'}
+    ghosts = {'k': 'int'}
+
+    def setup(self, cx):
+        t = cx.this or 'this'
+        cx.st.assume(declare_ps(cx, t + '._in'))
+        cx.st.assume(declare_ps(cx, t + '._out'))
+
+    def requires(self, cx):
+        return [('static', PS_static(cx))]
+
+    def assigns(self, cx):
+        return [('r', (cx.this or 'this') + '._out._data')]
+
+    def ensures(self, cx):
+        nx, ny, nb = ps_globals(cx)
+        k = cx.g('k')
+        return [('copy', {'C01', 'C08'}, Implies(And(k >= 0, k < nb * nx * ny), cx.sel('this._out._data', k) == cx.old.sel('this._in._data', k))),
+                ('in_unchanged', {'C08', 'C12'}, cx.arr('this._in._data') == cx.old.arr('this._in._data'))]
+
+
+# =========================================================================== U4 KickMap::applyTo
+class KickMapApplyTo(Contract):
+    name = 'vfps::KickMap::applyTo'
+    tu = 'src/SM/KickMap.cpp'
+    params = ['pos']
+    ref_params = ['pos']
+    tags = {'C15', 'C17'}
+
+    def pos(self, cx, c):
+        p = cx.arg('pos')
+        name = p.ref.name if hasattr(p, 'ref') else p.name
+        return cx.rf(f'{name}.{c}')
+
+    def requires(self, cx):
+        it, ip, kd, pd = KM_fields(cx)
+        px, py = self.pos(cx, 'x'), self.pos(cx, 'y')
+        n1 = z3.ToReal(kd) - 1
+        # tracked coordinates are grid coordinates (PhaseSpace::x()/y() clamp into [0,N-1]; every map keeps them there)
+        return [('valid', KM_valid(cx)), ('ongrid', And(px >= 0, px <= n1, py >= 0, py <= n1))]
+
+    def assigns(self, cx):
+        p = cx.arg('pos')
+        name = p.ref.name if hasattr(p, 'ref') else p.name
+        return [('s', name + '.x'), ('s', name + '.y')]
+
+    def ensures(self, cx):
+        it, ip, kd, pd = KM_fields(cx)
+        isx = cx.f('this._kickdirection', 'u8') == 0
+        px, py = self.pos(cx, 'x'), self.pos(cx, 'y')
+        ox, oy = self.pos(cx.old, 'x'), self.pos(cx.old, 'y')
+        n1 = z3.ToReal(kd) - 1
+        offs = cx.arr('this._offset')
+
+        def moved(o_kick, o_perp):
+            i = z3.ToInt(o_perp)
+            f = o_perp - z3.ToReal(i)
+            shift = (1 - f) * z3.Select(offs, i) + f * z3.Select(offs, i + 1)
+            raw = If(i + 1 < pd, o_kick - shift, o_kick)
+            return If(raw < 1, z3.RealVal(1), If(raw > n1, n1, raw))
+        return [('x.follow', {'C15'}, Implies(isx, And(px == moved(ox, oy), py == oy))),
+                ('y.follow', {'C15'}, Implies(Not(isx), And(py == moved(oy, ox), px == ox))),
+                ('ongrid', {'C15', 'C17'}, And(px >= 0, px <= n1, py >= 0, py <= n1))]
+
+
+# =========================================================================== U8 FokkerPlanckMap ctor
+def fp_flags(fptype):
+    damp = And(fptype != 0, fptype != 2)      # not none, not diffusion_only
+    diff = And(fptype != 0, fptype != 1)      # not none, not damping_only
+    return damp, diff
+
+
+class FokkerPlanckCtor(Contract):
+    name = 'vfps::FokkerPlanckMap::FokkerPlanckMap'
+    tu = 'src/SM/FokkerPlanckMap.cpp'
+    params = ['in', 'out', 'xsize', 'ysize', 'fptype', 'fptrack', 'e1', 'dt', 'oclh']
+    tags = {'C01', 'C04', 'C08', 'C17'}
+    ghosts = {'r0': 'int', 'r1': 'int', 'r2': 'int', 'r3': 'int', 'k': 'int'}
+    cases = [{'dt': d_, 'fptype': f_} for d_ in (3, 4) for f_ in (0, 1, 2, 3)]
+
+    def setup(self, cx):
+        nx, ny, nb = ps_globals(cx)
+        a = cx.arg('in').name
+        ax = a + '._axis[1]'
+        cx.st.assume(And(Ruler_valid(cx, a + '._axis[0]', nx), Ruler_valid(cx, ax, ny)))
+        # Ruler contract (positions affine in the index), in difference form, at the ghost rows and column
+        k = cx.g('k')
+        d = cx.rf(ax + '._delta')
+        for g in ('r0', 'r1', 'r2', 'r3'):
+            r = cx.g(g)
+            for c in (-2, -1, 0, 1, 2):
+                cx.st.assume(Implies(And(r == k + c, r >= 0, r < ny, k >= 0, k < ny),
+                                     cx.sel(ax + '._data', r) == cx.sel(ax + '._data', k) + c * d))
+
+    def requires(self, cx):
+        nx, ny, nb = ps_globals(cx)
+        a = cx.arg('in').name
+        zb = cx.rf(a + '._axis[1]._zerobin')
+        ys = cx.a('ysize')
+        return [('static', PS_static(cx)), ('ysize', And(ys == ny, cx.a('xsize') == nx)),
+                ('fptype', And(cx.a('fptype') >= 0, cx.a('fptype') <= 3)),
+                ('e1', cx.a('e1') > 0),
+                # zero-energy bin inside the grid, two cells away from its border (cubic stencil switches sides there)
+                ('zerobin_inside', Implies(cx.a('dt') == 4, And(zb >= 2, zb <= z3.ToReal(ys) - 2)))]
+
+    def assigns(self, cx):
+        return [('s', 'this.*'), ('r', 'this._hinfo')]
+
+    def effect(self, cx):
+        SourceMapCtor.effect(self, cx)
+        for f_ in ('_ip', '_it', '_xsize', '_ysize', '_meshxsize', '_dampdecr'):
+            cx.st.scal.pop(f'{cx.this}.{f_}', None)
+
+    # random sources are outside the deterministic model (C12/C15 exclude them)
+    def init__prng(self, ex, st, e):
+        st.scal['this._prng'] = Opaque('prng')
+
+    def init__normdist(self, ex, st, e):
+        st.scal['this._normdist'] = Opaque('normal_distribution')
+
+    # ---- what row j of the table must be (layout of the stencil; weights from the discretisation)
+    def rowspec(self, cx, j, part=None):
+        a = cx.arg('in').name
+        ax = a + '._axis[1]'
+        d = cx.rf(ax + '._delta')
+        zb = cx.rf(ax + '._zerobin')
+        e1 = cx.a('e1')
+        ys = cx.a('ysize')
+        dt = cx.a('dt')
+        A, B = fp_flags(cx.a('fptype'))
+        Ar, Br = If(A, z3.RealVal(1), z3.RealVal(0)), If(B, z3.RealVal(1), z3.RealVal(0))
+        p = cx.sel(ax + '._data', j)
+        e2d, e6d, ed2 = e1 / (2 * d), e1 / (6 * d), e1 / (d * d)
+        ip = If(dt == 3, I(3), I(4))
+
+        def ent(e):
+            return cx.sel('this._hinfo', j * ip + e, 'index', 'int'), cx.sel('this._hinfo', j * ip + e, 'weight')
+
+        def rowis(idx, ws):
+            return And(*[And(ent(e)[0] == idx[e], ent(e)[1] == ws[e]) for e in range(len(idx))])
+        zero3 = rowis([I(0)] * 3, [z3.RealVal(0)] * 3)
+        zero4 = rowis([I(0)] * 4, [z3.RealVal(0)] * 4)
+        def rowof(kind):
+            ws = fp_row_weights(kind, Ar, Br, p, d, e1)
+            offs = sorted(ws)
+            return rowis([j + o for o in offs], [ws[o] for o in offs])
+        two, lo, hi = rowof('two'), rowof('lo'), rowof('hi')
+        tz = z3.ToInt(zb)     # zero-energy bin index (zb >= 0 in the domain)
+        if part is not None:
+            return {'zero3': zero3, 'zero4': zero4, 'two': two, 'lo': lo, 'hi': hi, 'tz': tz}[part]
+        spec3 = If(And(j >= 1, j <= ys - 2), two, zero3)
+        spec4 = If(And(j >= 2, j < tz, j < ys - 2), lo, If(And(j >= tz, j >= 2, j < ys - 2), hi, zero4))
+        return If(dt == 3, spec3, spec4)
+
+    def moments(self, cx):
+        """column moments of the operator for column k whose contributing rows r0..r3 = k-1..k+2
+        (cubic, below the zero bin) / k-2..k+1 (above) / k-1..k+1 (two-sided)"""
+        a = cx.arg('in').name
+        ax = a + '._axis[1]'
+        d, zb, e1, ys, dt = cx.rf(ax + '._delta'), cx.rf(ax + '._zerobin'), cx.a('e1'), cx.a('ysize'), cx.a('dt')
+        A, B = fp_flags(cx.a('fptype'))
+        Ar, Br = If(A, z3.RealVal(1), z3.RealVal(0)), If(B, z3.RealVal(1), z3.RealVal(0))
+        k = cx.g('k')
+        rows = [cx.g('r0'), cx.g('r1'), cx.g('r2'), cx.g('r3')]
+        tz = z3.ToInt(zb)
+        ip = If(dt == 3, I(3), I(4))
+        pk = cx.sel(ax + '._data', k)
+
+        def colsum(power):
+            tot = z3.RealVal(0)
+            for r in rows:
+                pr = cx.sel(ax + '._data', r)
+                for e in range(4):
+                    idx = cx.sel('this._hinfo', r * ip + e, 'index', 'int')
+                    w = cx.sel('this._hinfo', r * ip + e, 'weight')
+                    term = w if power == 0 else (w * pr if power == 1 else w * pr * pr)
+                    tot = tot + If(And(e < ip, idx == k), term, z3.RealVal(0))
+            return tot
+        # the rows that can reach column k, and all of them on one side of the zero bin
+        two = And(dt == 3, rows[0] == k - 1, rows[1] == k, rows[2] == k + 1, rows[3] == k + 2, k >= 2, k <= ys - 3)
+        lo = And(dt == 4, rows[0] == k - 1, rows[1] == k, rows[2] == k + 1, rows[3] == k + 2, k >= 3, k + 2 < tz, k + 2 < ys - 2)
+        hi = And(dt == 4, rows[0] == k - 2, rows[1] == k - 1, rows[2] == k, rows[3] == k + 1, k - 2 >= tz, k - 2 >= 2, k + 1 < ys - 2)
+        interior = Or(two, lo, hi)
+        m0, m1, m2 = colsum(0), colsum(1), colsum(2)
+        ideal2 = pk * pk - 2 * Ar * e1 * pk * pk + 2 * Br * e1
+        return interior, m0, m1, m2, pk, Ar, e1, d, ideal2
+
+    def ensures(self, cx):
+        ys = cx.a('ysize')
+        out = []
+        for i, g in enumerate(('r0', 'r1', 'r2', 'r3')):
+            j = cx.g(g)
+            out.append((f'row.{g}', {'C01', 'C04', 'C08'}, Implies(And(j >= 0, j < ys), self.rowspec(cx, j))))
+        j = cx.g('r0')
+        ip = If(cx.a('dt') == 3, I(3), I(4))
+        for e in range(4):
+            out.append((f'index_in_grid.{e}', {'C17', 'C01'}, Implies(And(j >= 0, j < ys, e < ip), cx.sel('this._hinfo', j * ip + e, 'index', 'int') < ys)))
+        out += [('ip', {'C17'}, And(cx.f('this._ip', 'u8') == ip, cx.f('this._ysize') == ys, cx.f('this._meshxsize') == cx.a('xsize')))]
+        return out
+
+    def _common(self, cx):
+        ys = cx.a('ysize')
+        return [('sizes', And(cx.f('this._ysize') == ys, cx.f('this._ip', 'u8') == If(cx.a('dt') == 3, I(3), I(4)),
+                             cx.f('this._it', 'u8') == cx.f('this._ip', 'u8'),
+                             cx.len('this._hinfo') >= ys * cx.f('this._ip', 'u8'), cx.len('this._hinfo') >= 16))]
+
+    def _inv_two(self, cx):
+        j, ys = cx.v('j'), cx.a('ysize')
+        out = self._common(cx) + [('range', And(j >= 1, Or(j <= ys - 1, j == 1)))]
+        for g in ('r0', 'r1', 'r2', 'r3'):
+            r = cx.g(g)
+            out.append((f'zero.{g}', Implies(r == 0, self.rowspec(cx, r, 'zero3'))))
+            out.append((f'done.{g}', Implies(And(r >= 1, r < j), self.rowspec(cx, r, 'two'))))
+        return out
+
+    def _inv_lo(self, cx):
+        j, ys = cx.v('j'), cx.a('ysize')
+        out = self._common(cx) + [('range', And(j >= 2, z3.ToReal(j) <= cx.v('ycenter') + 1))]
+        for g in ('r0', 'r1', 'r2', 'r3'):
+            r = cx.g(g)
+            out.append((f'zero.{g}', Implies(And(r >= 0, r <= 1), self.rowspec(cx, r, 'zero4'))))
+            out.append((f'done.{g}', Implies(And(r >= 2, r < j), self.rowspec(cx, r, 'lo'))))
+        return out
+
+    def _inv_hi(self, cx):
+        j, ys = cx.v('j'), cx.a('ysize')
+        tz = self.rowspec(cx, cx.g('r0'), 'tz')
+        out = self._common(cx) + [('range', And(j >= tz, Or(j <= ys - 2, j == tz)))]
+        for g in ('r0', 'r1', 'r2', 'r3'):
+            r = cx.g(g)
+            out.append((f'zero.{g}', Implies(And(r >= 0, r <= 1), self.rowspec(cx, r, 'zero4'))))
+            out.append((f'lo.{g}', Implies(And(r >= 2, r < tz), self.rowspec(cx, r, 'lo'))))
+            out.append((f'done.{g}', Implies(And(r >= tz, r < j), self.rowspec(cx, r, 'hi'))))
+        return out
+
+    def loops_for(self, ci):
+        if ci < 4:
+            return {'j#0': LoopSpec(inv=self._inv_two)}
+        return {'j#0': LoopSpec(inv=self._inv_lo), 'j#1': LoopSpec(inv=self._inv_hi)}
+
+    @property
+    def calls(self):
+        return {'ctor:vfps::SourceMap/7': Use(SourceMapCtor7())}
+
+
+def fp_row_weights(kind, A, B, p, d, e1):
+    """(index offset -> weight) of a table row at energy p: the layout/weights that
+    FokkerPlanckCtor.rowspec proves the constructor builds"""
+    e2d, e6d, ed2 = e1 / (2 * d), e1 / (6 * d), e1 / (d * d)
+    if kind == 'two':
+        return {-1: A * (-e2d * p) + B * ed2, 0: 1 + A * e1 + B * (-2 * ed2), 1: A * (e2d * p) + B * ed2}
+    if kind == 'lo':
+        return {-2: A * e6d * p, -1: A * (-6 * e6d * p) + B * ed2, 0: 1 + A * (e1 + 3 * e6d * p) + B * (-2 * ed2), 1: A * (2 * e6d * p) + B * ed2}
+    return {-1: A * (-2 * e6d * p) + B * ed2, 0: 1 + A * (e1 - 3 * e6d * p) + B * (-2 * ed2), 1: A * (6 * e6d * p) + B * ed2, 2: A * (-e6d * p)}
+
+
+def lemmas_fp():
+    """column moments of the damping/diffusion operator whose rows are fp_row_weights, for a column
+    all of whose contributing rows lie on one side of the zero-energy bin (C01: m0 = 1; C04: per-step
+    law of mean and second moment, second-order tolerance 0 <= c <= 1)"""
+    p, d, e1 = z3.Reals('p d e1')
+    out = []
+    for kind in ('two', 'lo', 'hi'):
+        for ft in (0, 1, 2, 3):
+            A = 1 if ft in (1, 3) else 0
+            B = 1 if ft in (2, 3) else 0
+            m = [z3.RealVal(0)] * 3
+            for y in (-2, -1, 0, 1, 2):      # row k+y contributes to column k through its entry with offset -y
+                w = fp_row_weights(kind, A, B, p + y * d, d, e1).get(-y)
+                if w is None:
+                    continue
+                py = p + y * d
+                m = [m[0] + w, m[1] + w * py, m[2] + w * py * py]
+            pre = And(d > 0, e1 > 0)
+            ideal2 = p * p - 2 * A * e1 * p * p + 2 * B * e1
+            out.append((f'FP.m0.{kind}.{ft}', {'C01', 'C04'}, Implies(pre, m[0] == 1)))
+            out.append((f'FP.m1.{kind}.{ft}', {'C04'}, Implies(pre, m[1] == (1 - A * e1) * p)))
+            out.append((f'FP.m2.{kind}.{ft}', {'C04'}, Implies(pre, And(m[2] <= ideal2, m[2] >= ideal2 - A * e1 * d * d))))
+    return out
+
+
+def lemmas_fp_transition():
+    """C01's tolerated defect: for the columns next to the zero-energy bin (where the one-sided cubic
+    stencil switches sides) the column sum deviates from 1 by at most e1 (the per-step decrement)"""
+    ptz, d, e1 = z3.Reals('ptz d e1')
+    out = []
+    for ft in (0, 1, 2, 3):
+        A = 1 if ft in (1, 3) else 0
+        B = 1 if ft in (2, 3) else 0
+        for c in (-3, -2, -1, 0, 1, 2):
+            m0 = z3.RealVal(0)
+            for y in (-2, -1, 0, 1, 2):
+                kind = 'lo' if c + y < 0 else 'hi'
+                w = fp_row_weights(kind, A, B, ptz + (c + y) * d, d, e1).get(-y)
+                if w is not None:
+                    m0 = m0 + w
+            pre = And(d > 0, e1 > 0, ptz > -d, ptz <= 0)
+            out.append((f'FP.m0.transition.{ft}.{c}', {'C01'}, Implies(pre, And(m0 - 1 <= e1, 1 - m0 <= e1))))
+    return out
+
+
+# =========================================================================== U9 FokkerPlanckMap::apply
+def FP_valid(cx):
+    nx, ny, nb = ps_globals(cx)
+    ip = cx.f('this._ip', 'u8')
+    return And(PS_static(cx), Or(ip == 3, ip == 4), cx.f('this._ysize') == ny, cx.f('this._meshxsize') == nx,
+               cx.len('this._hinfo') >= ny * ip)
+
+
+class FokkerPlanckApply(Contract):
+    name = 'vfps::FokkerPlanckMap::apply'
+    tu = 'src/SM/FokkerPlanckMap.cpp'
+    params = []
+    tags = {'C01', 'C04', 'C08', 'C12'}
+    ghosts = {'n': 'int', 'x': 'int', 'y': 'int'}
+    uf_mul = True
+
+    def setup(self, cx):
+        t = cx.this or 'this'
+        cx.st.assume(declare_ps(cx, t + '._in'))
+        cx.st.assume(declare_ps(cx, t + '._out'))
+
+    def requires(self, cx):
+        tab = ElemInv('this._hinfo', 'index', 'int',
+                      lambda c, k, v: Implies(And(k >= 0, k < c.f('this._ysize') * c.f('this._ip', 'u8')), v < c.f('this._ysize')))
+        return [('valid', FP_valid(cx)), ('table', tab)]
+
+    def assigns(self, cx):
+        return [('r', (cx.this or 'this') + '._out._data')]
+
+    def ensures(self, cx):
+        nx, ny, nb = ps_globals(cx)
+        ip = cx.f('this._ip', 'u8')
+        n, x, y = cx.g('n'), cx.g('x'), cx.g('y')
+        rng = And(n >= 0, n < nb, x >= 0, x < nx, y >= 0, y < ny)
+        din, dout = cx.old.arr('this._in._data'), cx.arr('this._out._data')
+        tot = z3.RealVal(0)
+        for j in range(4):
+            idx = cx.sel('this._hinfo', y * ip + j, 'index', 'int')
+            w = cx.sel('this._hinfo', y * ip + j, 'weight')
+            tot = tot + If(j < ip, models.FMUL(z3.Select(din, n * nx * ny + x * ny + idx), w), z3.RealVal(0))
+        return [('form', {'C01', 'C04', 'C08'}, Implies(rng, z3.Select(dout, n * nx * ny + x * ny + y) == tot)),
+                ('in_unchanged', {'C08', 'C12'}, din == cx.arr('this._in._data')),
+                ('table_unchanged', {'C08', 'C12'}, And(cx.arr('this._hinfo', 'index', 'int') == cx.old.arr('this._hinfo', 'index', 'int'),
+                                                        cx.arr('this._hinfo', 'weight') == cx.old.arr('this._hinfo', 'weight')))]
+
+    def _done(self, cx, before):
+        lab, tg, f = self.ensures(cx)[0]
+        return [(lab, Implies(before, f))]
+
+    def _frame(self, cx):
+        return [('in_unchanged', cx.old.arr('this._in._data') == cx.arr('this._in._data'))]
+
+    def _inv_n(self, cx):
+        n = cx.v('n')
+        return [('range', And(n >= 0, n <= cx.f(PS_NB)))] + self._done(cx, cx.g('n') < n) + self._frame(cx)
+
+    def _inv_x(self, cx):
+        nx, ny, nb = ps_globals(cx)
+        n, x = cx.v('n'), cx.v('x')
+        gn, gx = cx.g('n'), cx.g('x')
+        return [('range', And(n >= 0, n < nb, x >= 0, x <= nx)), ('offs1', cx.v('offs1') == n * nx * ny)] + \
+            self._done(cx, Or(gn < n, And(gn == n, gx < x))) + self._frame(cx)
+
+    def _inv_y(self, cx):
+        nx, ny, nb = ps_globals(cx)
+        n, x, y = cx.v('n'), cx.v('x'), cx.v('y')
+        gn, gx, gy = cx.g('n'), cx.g('x'), cx.g('y')
+        return [('range', And(n >= 0, n < nb, x >= 0, x < nx, y >= 0, y <= ny)),
+                ('offs1', cx.v('offs1') == n * nx * ny), ('offs', cx.v('offs') == n * nx * ny + x * ny)] + \
+            self._done(cx, Or(gn < n, And(gn == n, gx < x), And(gn == n, gx == x, gy < y))) + self._frame(cx)
+
+    @property
+    def loops(self):
+        ly = LoopSpec(inv=self._inv_y, hints=KickMapApply._hints_y.__get__(self))
+        ly.split = KickMapApply._split_y.__get__(self)
+        return {'n#0': LoopSpec(inv=self._inv_n), 'x#0': LoopSpec(inv=self._inv_x), 'y#0': ly, 'j#0': LoopSpec(unroll=4)}
+
+
+# =========================================================================== U10 FokkerPlanckMap::applyTo
+class FokkerPlanckApplyTo(Contract):
+    name = 'vfps::FokkerPlanckMap::applyTo'
+    tu = 'src/SM/FokkerPlanckMap.cpp'
+    params = ['pos']
+    ref_params = ['pos']
+    tags = {'C15', 'C17'}
+    cases = [{}]
+
+    pos = KickMapApplyTo.pos
+
+    def setup(self, cx):
+        t = cx.this or 'this'
+        cx.st.assume(declare_ps(cx, t + '._in'))
+        alias_axes(cx)
+        nx, ny, nb = ps_globals(cx)
+        cx.st.assume(And(Ruler_valid(cx, t + '._in._axis[0]', nx), Ruler_valid(cx, t + '._in._axis[1]', ny)))
+
+    def requires(self, cx):
+        nx, ny, nb = ps_globals(cx)
+        px, py = self.pos(cx, 'x'), self.pos(cx, 'y')
+        n1 = z3.ToReal(ny) - 1
+        tab = ElemInv('this._hinfo', 'index', 'int',
+                      lambda c, k, v: Implies(And(k >= 0, k < c.f('this._ysize') * c.f('this._ip', 'u8')), v < c.f('this._ysize')))
+        ft = cx.f('this._fptrack', 'u8')
+        zb = cx.rf((cx.this or 'this') + '._in._axis[1]._zerobin')
+        return [('valid', FP_valid(cx)), ('table', tab), ('fptrack', And(ft >= 0, ft <= 3)),
+                ('e1', And(cx.rf('this._dampdecr') > 0, cx.rf('this._dampdecr') < 1)),
+                ('ongrid', And(px >= 0, px <= n1, py >= 0, py <= n1))]
+
+    def assigns(self, cx):
+        p = cx.arg('pos')
+        name = p.ref.name if hasattr(p, 'ref') else p.name
+        return [('s', name + '.y')]
+
+    def ensures(self, cx):
+        nx, ny, nb = ps_globals(cx)
+        px, py = self.pos(cx, 'x'), self.pos(cx, 'y')
+        ox, oy = self.pos(cx.old, 'x'), self.pos(cx.old, 'y')
+        n1 = z3.ToReal(ny) - 1
+        ft = cx.f('this._fptrack', 'u8')
+        zb = cx.rf((cx.this or 'this') + '._in._axis[1]._zerobin')
+        e1 = cx.rf('this._dampdecr')
+        out = [('ongrid', {'C15', 'C17'}, And(py >= 0, py <= n1)),
+               ('x_untouched', {'C15'}, px == ox),
+               ('none', {'C15'}, Implies(ft == 0, py == oy))]
+        if cx.ex.randoms:
+            xi = cx.ex.randoms[-1]
+            raw = oy - ((oy - zb) * e1 + xi)       # Ornstein-Uhlenbeck step about the zero-energy bin
+            out.append(('stochastic_ou', {'C15'}, Implies(ft == 3, py == If(raw < 1, z3.RealVal(1), If(raw > n1, n1, raw)))))
+        return out
+
+    loops = {'j#0': LoopSpec(unroll=4), 'j#1': LoopSpec(unroll=4)}
+
+
+# =========================================================================== lemma layer (pure, over contract symbols)
+def lemmas_c01_col():
+    """C01.col: a source cell s on a grid line whose table row has integer origin T (= trunc(N/2+offset))
+    hands weight j to destination d_j = s - (T + node_j - N/2); if the displaced support stays
+    `it` cells clear of the border every d_j is a grid cell, so the column sum is sum_j W_j = 1."""
+    s, T, N = z3.Ints('s T N')
+    out = []
+    for it in (1, 2, 3, 4):
+        for j in range(it):
+            d = s - (T + NODES[it][j] - N / 2)
+            interior = And(N >= 2, s >= it, s <= N - 1 - it, s - (T - N / 2) >= it, s - (T - N / 2) <= N - 1 - it)
+            # the table stores source lines relative to the grid centre: representable iff 0 <= T+node < N
+            representable = And(T + NODES[it][0] >= 0, T + NODES[it][it - 1] < N)
+            out.append((f'C01.col.{it}.{j}', {'C01'}, Implies(And(interior, representable), And(d >= 0, d < N))))
+            out.append((f'C01.col.anyoffset.{it}.{j}', {'C01'}, Implies(interior, And(d >= 0, d < N, T + NODES[it][j] >= 0, T + NODES[it][j] < N))))
+    return out
+
+
+def lemmas_c08():
+    n, lb, pd, x = z3.Ints('n lb pd x')
+    return [('C08.shared_rows', {'C08'},
+             Implies(And(lb == 0, n >= 0), If(n < lb, n, lb) * pd + x == x))]
+
+
+def lemmas_c03():
+    """kick-drift centroid map (q,p) -> (q - th*(p + t*q), p + t*q): area preserving, trace 2 - th*t,
+    independent of the grid shift because positions are measured from the zero bin (Ruler contract: at(zerobin)=0)"""
+    th, t, q, p = z3.Reals('th t q p')
+    p1 = p + t * q
+    q1 = q - th * p1
+    a, b, c, d = 1 - th * t, -th, t, z3.RealVal(1)
+    out = [('C03.M.form', {'C03'}, And(q1 == a * q + b * p, p1 == c * q + d * p)),
+           ('C03.M.det', {'C03'}, a * d - b * c == 1),
+           ('C03.M.trace', {'C03'}, a + d == 2 - th * t)]
+    # RF and drift offsets (in cells) as displacement of the charge in normalised units
+    zb, x, dq, mn = z3.Reals('zb x dq mn')
+    qx = mn + x * dq
+    out.append(('C03.rf.units', {'C03'}, Implies(And(dq > 0, mn + zb * dq == 0), -(t * (zb - x)) * dq == t * qx)))
+    return out
+
+
+def lemmas_c04():
+    """scalar recurrence of the second moment under one damping/diffusion step"""
+    v, e, c, D = z3.Reals('v e c D')
+    vstar = 1 - c * D * D / 2
+    v1 = (1 - 2 * e) * v + 2 * e - c * e * D * D
+    pre = And(e > 0, e < z3.RealVal(1) / 2, c >= 0, c <= 1)
+    return [('C04.rec.fixed', {'C04'}, Implies(pre, z3.substitute(v1, (v, vstar)) == vstar)),
+            ('C04.rec.contract', {'C04'}, Implies(pre, v1 - vstar == (1 - 2 * e) * (v - vstar))),
+            ('C04.rec.monotone', {'C04'}, Implies(And(pre, v > vstar), And(v1 < v, v1 > vstar))),
+            ('C04.damping_only', {'C04'}, Implies(And(pre, v > 0), (1 - 2 * e) * v - c * e * D * D < v)),
+            ('C04.diffusion_only', {'C04'}, Implies(pre, v + 2 * e > v))]
